@@ -37,7 +37,7 @@ TRUSTED = ["Model/Scalars.v payload semantics are a hand transcription of math.p
            "separate create_context() wrapped; values are additionally observed on an untouched context"]
 ASSUMPTIONS = ["operands reach the operators as variables of a child context of yaql.create_context() with a default engine "
                "(no memory quota)",
-               "sequences in the corpus hold integers only; repetition results between 10^7 and 2^31 elements are not generated",
+               "sequences in the corpus hold integers only; repetition results of more than 10^5 items (below the 2^62 count at which Python fails at once) are not generated",
                "NaN is excluded from the order-consistency statements (C15_order_consistent_num premises; O corpus has no NaN)",
                "float laws of C15_order_consistent_num (three-way comparison antisymmetric, undefined exactly on NaN) are "
                "premises, not proved of IEEE arithmetic"]
@@ -67,6 +67,25 @@ CTOR_OF = {sp: c for c, sp in BINARY}
 CTOR_OF_UNARY = {sp: c for c, sp in UNARY}
 ARITH_ORDER = ["+", "-", "*", "/", "mod", "<", "<=", ">", ">="]
 ORDER = ["<", "<=", ">", ">="]
+
+
+def random_scalars(rng, n):
+    """seeded random integers (1..200 bits), finite floats (random bit patterns) and short strings"""
+    import struct
+    out = []
+    for _ in range(n):
+        r = rng.random()
+        if r < 0.4:
+            v = rng.getrandbits(rng.choice([1, 3, 8, 31, 53, 54, 63, 64, 65, 130, 200]))
+            out.append(-v if rng.random() < 0.5 else v)
+        elif r < 0.75:
+            f = struct.unpack("<d", struct.pack("<Q", rng.getrandbits(64)))[0]
+            if f != f or f in (float("inf"), float("-inf")):
+                f = float(rng.randrange(-5, 6)) / 4
+            out.append(f if rng.random() < 0.7 else float(rng.randrange(-2 ** 54, 2 ** 54)))
+        else:
+            out.append("".join(rng.choice(["a", "b", "A", "\u00e9", "\U0001F600", "\x00", "z"]) for _ in range(rng.randrange(0, 5))))
+    return out
 
 
 def corpus_values(full, special):
@@ -172,14 +191,14 @@ class Impl:
         self.ictx = yaql.create_context()
         self.ran = []
         self.cache = {}
-        for _, name, _, _ in G.OPS:
-            for layer in self.ictx.collect_functions(name, lambda fd, c: True):
-                for fd in layer:
-                    fd.payload = self._wrap(fd.payload)
+        for _, name, arity, _ in G.OPS:
+            layers, _spec = G.describe(self.ictx, self.engine, name, arity)
+            for layer in layers:
+                for d in layer:
+                    d["fd"].payload = self._wrap(d["fd"].payload, d["tag"])
 
-    def _wrap(self, orig):
+    def _wrap(self, orig, tag):
         ran = self.ran
-        tag = G.tag_of(orig)
 
         def payload(*a, **k):
             ran.append(tag)
@@ -602,7 +621,8 @@ def oracle(run, deep):
     for a, b in itertools.product(vals, vals):
         pair(a, b)
     scal = [v for v in corpus_values(True, special=True) if kind(v) not in ("list", "tuple") and v == v]
-    ntri = 20000 if deep else run.n(3000, 40000)
+    scal += random_scalars(run.rng, run.n(40, 400))
+    ntri = 20000 if deep and run.quick else run.n(3000, 150000)
     for _ in range(ntri):
         fam = run.rng.choice(["num", "num", "str", "any"])
         pool = scal if fam == "any" else [v for v in scal if family(v) == fam or (v is None and run.rng.random() < 0.3)]
@@ -626,8 +646,9 @@ def gen_cases(run):
         for a, b in itertools.product(vals, vals):
             cases.append({"ops": [sp], "vals": [a, b]})
     scal = [v for v in corpus_values(True, special=True) if kind(v) not in ("list", "tuple")]
+    scal += random_scalars(run.rng, run.n(40, 400))
     bsp = [s for _, s in BINARY]
-    for _ in range(run.n(1500, 30000)):
+    for _ in range(run.n(1500, 100000)):
         r = run.rng.random()
         if r < 0.5:
             pool = [v for v in scal if family(v) == "num"]
@@ -643,12 +664,14 @@ def gen_cases(run):
 
 
 def too_big(case):
-    """repetition results the model does not allocate (never generated by the corpus; guards the corpus file)"""
+    """repetition results (also intermediate ones of a triple) larger than 10^5 items are not generated:
+    the model would have to build them inside Coq; counts of 2^62 and more fail at once on both sides"""
     vals = case["vals"]
-    for a, b in itertools.permutations(vals, 2):
-        if kind(a) in ("str", "list", "tuple") and kind(b) == "int" and 10 ** 7 < len(a) * b < 2 ** 62:
-            return True
-    return False
+    prod = 1
+    for v in vals:
+        if kind(v) == "int" and 1 < v < 2 ** 62:
+            prod *= v
+    return any(kind(a) in ("str", "list", "tuple") and len(a) * prod > 10 ** 5 for a in vals)
 
 
 def observe(im, case):
